@@ -326,6 +326,9 @@ def evaluate(ctx, binary, name, lines, known_class=None):
         if impl.startswith('NOSESSION'):
             dis.append((line, impl, model))
             continue
+        if impl.startswith('FAULT-before-rcpt'):
+            fails.append((line, impl, 'fails memory-safety-or-crash (while an earlier command of the session was handled)'))
+            continue
         if impl != model:
             dis.append((line, impl, model))
         if not pred.startswith('holds'):
